@@ -2,7 +2,7 @@
    (finding #6 and relatives), and non-trivial instances that meet the hypotheses of the agreement theorems. *)
 From Coq Require Import PrimFloat ZArith List Bool Lia.
 Import ListNotations.
-Require Import PyBase Solver SolverF FSem FSemFacts FSolve FSolveFacts FSolveSim FPassFacts FortranF.
+Require Import PyBase Solver SolverF FSem FSemFacts FSolve FSolveFacts FSolveSim FSolveRun FPassFacts FSolveAll FPassSolve FortranF.
 Open Scope Z_scope.
 
 Definition no_or : oracles := mkOr [] [] [].
@@ -139,8 +139,8 @@ Section ZInstance.
     - cbn; lia.
     - cbn; lia.
     - left; reflexivity.
-    - intros i Hi. destruct i as [|[|i]]; [vm_compute; intuition auto|vm_compute; intuition auto|cbn in Hi; lia].
-    - intros i Hi. split; apply forallb_forall; intros; reflexivity.
+    - reflexivity.
+    - vm_compute. intuition auto.
   Qed.
 
   (* ... and the run is not trivial: two passes, converged, Y[1] = 2 * 1 + 1 *)
@@ -150,4 +150,62 @@ Section ZInstance.
                fmod1 desc1 zopts 1 zstate in
     snd r = Ret true /\ nth 1 (iters (fst r)) 0 = 2 /\ nth 1 (nth 0 (vals_of (fst r)) []) 0 = 3.
   Proof. cbv zeta. repeat split; vm_compute; reflexivity. Qed.
+  (* the hypotheses of FPassSolve.solve_engines_agree are satisfiable: solve over the periods 1, 2, 3 *)
+  Example solve_engines_agree_instance :
+    agree Z
+      (w_solve Z Z.sub Z.abs Z.ltb zt 0
+         (f_pass Z Z.add Z.sub Z.mul Z.quot Z.opp Z.abs Z.ltb zid zid zid Z.pow zid zid zid Z.pow 0 1 zprog)
+         fmod1 desc1 zopts FRaise [1; 2; 3]%nat zstate)
+      (py_solve Z Z.sub Z.abs Z.ltb zt 0
+         (py_hook Z Z.add Z.sub Z.mul Z.quot Z.opp Z.abs Z.ltb zf zf zid zid zid Z.pow zprog 4) (no_hook Z) (no_hook Z)
+         desc1 zopts [1; 2; 3]%nat zstate).
+  Proof.
+    apply (solve_engines_agree Z Z.add Z.sub Z.mul Z.quot Z.opp Z.abs Z.ltb zf zf zid zid zid Z.pow zid zid zid Z.pow 0 1 zt
+             z_neg_mul z_neg_div zprog fmod1 desc1 zopts 4%nat 3%nat 0 0 FRaise).
+    - lia.
+    - repeat constructor.
+    - repeat constructor.
+    - reflexivity.
+    - reflexivity.
+    - reflexivity.
+    - constructor; [|constructor]. split; [cbn; lia|]. split; [reflexivity|].
+      intros j k H. cbn in H. destruct H as [H|[H|[H|[]]]]; inversion H; subst; cbn; split; lia.
+    - cbn; lia.
+    - cbn; lia.
+    - reflexivity.
+    - reflexivity.
+    - reflexivity.
+    - split; [reflexivity|]. repeat constructor.
+    - reflexivity.
+    - cbn [solve_ok_prog]. split; [|split; [|split; [|exact I]]]; vm_compute; intuition (auto with arith).
+  Qed.
+
+  Example solve_engines_agree_instance_run :
+    let r := w_solve Z Z.sub Z.abs Z.ltb zt 0
+               (f_pass Z Z.add Z.sub Z.mul Z.quot Z.opp Z.abs Z.ltb zid zid zid Z.pow zid zid zid Z.pow 0 1 zprog)
+               fmod1 desc1 zopts FRaise [1; 2; 3]%nat zstate in
+    snd r = Ret [true; true; true] /\ iters (fst r) = [-1; 2; 2; 2] /\ nth 0 (vals_of (fst r)) [] = [1; 3; 7; 15].
+  Proof. cbv zeta. repeat split; vm_compute; reflexivity. Qed.
+
+  (* ... and those of FPassFacts.evaluate_engines_agree, with the negative spelling of the period *)
+  Example evaluate_engines_agree_instance :
+    w_evaluate Z (f_pass Z Z.add Z.sub Z.mul Z.quot Z.opp Z.abs Z.ltb zid zid zid Z.pow zid zid zid Z.pow 0 1 zprog) fmod1 (-2) zstate
+    = (setvals Z zstate (f_pass Z Z.add Z.sub Z.mul Z.quot Z.opp Z.abs Z.ltb zid zid zid Z.pow zid zid zid Z.pow 0 1 zprog 3 (vals_of zstate)), Ret tt) /\
+    py_pass Z Z.add Z.sub Z.mul Z.quot Z.opp Z.abs Z.ltb zf zf zid zid zid Z.pow false zprog 4 (-2) (vals_of zstate)
+    = (f_pass Z Z.add Z.sub Z.mul Z.quot Z.opp Z.abs Z.ltb zid zid zid Z.pow zid zid zid Z.pow 0 1 zprog 3 (vals_of zstate), None).
+  Proof.
+    apply (evaluate_engines_agree Z Z.add Z.sub Z.mul Z.quot Z.opp Z.abs Z.ltb zf zf zid zid zid Z.pow zid zid zid Z.pow 0 1
+             z_neg_mul z_neg_div zprog fmod1 1%nat 0%nat (-2) zstate 2%nat 4%nat 3%nat).
+    - split; [reflexivity|]. repeat constructor.
+    - reflexivity.
+    - lia.
+    - reflexivity.
+    - reflexivity.
+    - constructor; [|constructor]. split; [cbn; lia|]. split; [reflexivity|].
+      intros j k H. cbn in H. destruct H as [H|[H|[H|[]]]]; inversion H; subst; cbn; split; lia.
+    - reflexivity.
+    - lia.
+    - lia.
+    - vm_compute. intuition auto.
+  Qed.
 End ZInstance.
